@@ -9,7 +9,7 @@ CONSTANT MaxChain
 VARIABLES kind, ord, b, body, exp, beh, events
 vars == <<kind, ord, b, body, exp, beh, events>>
 
-Canon(x, bd) == /\ x.act \in {"panic", "stallpanic", "writepanic", "stall"} => x.st = 200
+Canon(x, bd) == /\ x.act \in {"panic", "stallpanic", "writepanic", "stall", "silent"} => x.st = 200
                 /\ ~x.reads => bd = "fits"
 NoB == [act |-> "ok", st |-> 200, reads |-> FALSE]
 Init == \/ /\ kind = "mw"
